@@ -6,5 +6,6 @@ CONSTANTS
   Mix = 10
   Bases = {"bare", "info"}
   DeepBases = {}
+  Std = FALSE
   Emit = TRUE
 INVARIANTS TypeOK Isolated EmitCase
